@@ -326,6 +326,18 @@ def impl(case):
         scope = {"type": "http", "asgi": {"version": "3.0"}, "http_version": "1.1", "method": "GET", "scheme": scheme,
                  "path": path, "raw_path": path.encode("utf8"), "root_path": root, "query_string": query.encode("utf8"),
                  "headers": headers, "server": sv, "client": ("127.0.0.1", 50000)}
+        # the URL of a request must not depend on the requests this process answered before: the same server address is
+        # first asked about under every other scheme (with and without a Host header), on both interfaces
+        for other in ("http", "https", "ws", "wss"):
+            if other != scheme and sv is not None:
+                for hdrs in ([(b"accept", b"*/*")], [(b"host", b"other.example:81")]):
+                    guarded(lambda: AsgiRequest(dict(scope, scheme=other, headers=hdrs)).url)
+                    if sv[1] is not None:
+                        e0 = {"REQUEST_METHOD": "GET", "SCRIPT_NAME": "", "PATH_INFO": "/", "QUERY_STRING": "", "SERVER_NAME": sv[0],
+                              "SERVER_PORT": str(sv[1]), "SERVER_PROTOCOL": "HTTP/1.1", "wsgi.url_scheme": other}
+                        if hdrs[0][0] == b"host":
+                            e0["HTTP_HOST"] = "other.example:81"
+                        guarded(lambda: WsgiRequest(e0).url)
         asgi = guarded(lambda: AsgiRequest(scope).url)
         if sv is not None and sv[1] is not None:
             wsv = sv
